@@ -225,6 +225,7 @@ impl Prop for C04 {
         v.push("probed-dates".into());
         v.push("calendar:inside-CalType-container".to_string());
         v.push("holiday-list:not-chronological".to_string());
+        v.push("calendar:named-with-settlement-inside-CalType-container".to_string());
         v
     }
     fn min_evaluations(&self, tier: Tier) -> u64 {
@@ -285,12 +286,17 @@ impl Prop for C04 {
                 };
                 let spec = CalSpec::Named(name.to_string());
                 ctx.crumb(&format!("named {}", name));
-                match build_cal(&spec) {
-                    Some(any) => {
-                        if any.is_wrapped() {
-                            ctx.class("calendar:inside-CalType-container");
+                match build_cal_forms(&spec) {
+                    Some(forms) => {
+                        for any in forms.iter() {
+                            if any.is_wrapped() {
+                                ctx.class("calendar:inside-CalType-container");
+                                if matches!(&spec, CalSpec::Named(n) if n.contains('|')) {
+                                    ctx.class("calendar:named-with-settlement-inside-CalType-container");
+                                }
+                            }
+                            with_cal!(any, c => run_on(ctx, c, &spec, &dates, rng));
                         }
-                        with_cal!(&any, c => run_on(ctx, c, &spec, &dates, rng));
                     }
                     None => ctx.violation(&format!("C04|named-unresolved|{}", name), json!({"name": name})),
                 }
@@ -307,12 +313,17 @@ impl Prop for C04 {
                 };
                 ctx.crumb(&format!("random calendar {}", spec.describe()));
                 let dates: Vec<i64> = (z0..=z1).collect();
-                match build_cal(&spec) {
-                    Some(any) => {
-                        if any.is_wrapped() {
-                            ctx.class("calendar:inside-CalType-container");
+                match build_cal_forms(&spec) {
+                    Some(forms) => {
+                        for any in forms.iter() {
+                            if any.is_wrapped() {
+                                ctx.class("calendar:inside-CalType-container");
+                                if matches!(&spec, CalSpec::Named(n) if n.contains('|')) {
+                                    ctx.class("calendar:named-with-settlement-inside-CalType-container");
+                                }
+                            }
+                            with_cal!(any, c => run_on(ctx, c, &spec, &dates, rng));
                         }
-                        with_cal!(&any, c => run_on(ctx, c, &spec, &dates, rng));
                     }
                     None => ctx.harness_error("could not build generated calendar".into()),
                 }
